@@ -191,10 +191,14 @@ def run_blackbox(tier, only_case=None):
                             vio("valid_line_rejected", line, "HTTP %s: %s" % (st, body[:200]), {"line": line})
                         rows.append((ts, vals))
                     pair_cases.append((name, rows))
-        # visibility barrier: the last accepted measurement must be queryable
+        # visibility barrier: the last measurement written (a pair case if there is one, else the last accepted line) must be
+        # queryable; a new measurement / series becomes visible some time after the acknowledgement (catalogue cache of the
+        # sql layer, index flush tick), longer on a loaded machine
         if accepted:
             last = [c for c in accepted if not c.get("invalid")][-1]
-            deadline = time.time() + 60
+            if pair_cases:
+                last = {"meas": pair_cases[-1][0]}
+            deadline = time.time() + 120
             while True:
                 st, js = srv.query('select * from "%s"' % last["meas"], db="c06")
                 if st == 200 and js and js["results"][0].get("series"):
@@ -204,8 +208,19 @@ def run_blackbox(tier, only_case=None):
                 time.sleep(0.1)
             time.sleep(1.0)
 
+        def query_visible(q, want):
+            """An accepted point that is not returned yet is polled for (eventual visibility is not what C06 is about);
+            only a point that stays absent for 30 s is reported."""
+            st, js = srv.query(q, db="c06")
+            t_end = time.time() + 30
+            while want and time.time() < t_end and not (st == 200 and js and js["results"][0].get("series")):
+                time.sleep(0.25)
+                rep["counters"]["blackbox_read_retries"] = rep["counters"].get("blackbox_read_retries", 0) + 1
+                st, js = srv.query(q, db="c06")
+            return st, js
+
         def rd(c):
-            st, js = srv.query('select * from "%s" group by *' % c["meas"], db="c06")
+            st, js = query_visible('select * from "%s" group by *' % c["meas"], not c.get("invalid"))
             return c, st, js
         with ThreadPoolExecutor(8) as ex:
             for c, st, js in ex.map(rd, accepted):
@@ -254,7 +269,7 @@ def run_blackbox(tier, only_case=None):
                         kind = "int_not_float64_exact"
                     vio(kind, "|" + c["line"], "; ".join(problems), c)
         def rdp(pc):
-            st, js = srv.query('select * from "%s"' % pc[0], db="c06")
+            st, js = query_visible('select * from "%s"' % pc[0], True)
             return pc, st, js
         with ThreadPoolExecutor(8) as ex:
             for (name, rows), st, js in ex.map(rdp, pair_cases):
